@@ -18,8 +18,15 @@ NAMES = ["init", "Init", "INIT", "a", "A", "b", "", "operator(<)", "operator(lt)
          "solve", "gt", "operator(gt)", "Solve_2", "__unnamed__"]
 
 
-def case_term(reqs, outs):
-    rs = coq_list(f"mk {i} {coq_str(d)} {coq_str(n)}" for i, d, n in reqs)
+def obj_of(i, d):
+    """obj differs from the directory exactly where FORD's classes make it differ"""
+    return {"module": ["module", "submodule"][i % 2], "interface": ["interface", "proc"][i % 2],
+            "None": ["variable", "proc", "boundprocedure", "enum", "common"][i % 5]}.get(d, d)
+
+
+def case_term(reqs, outs, objs=None):
+    rs = coq_list(f"mko {i} {coq_str(d)} {coq_str(n)} {coq_str((objs or {}).get(i) or obj_of(i, d))}"
+                  for i, d, n in reqs)
     return f"({rs}, {coq_list(coq_str(o) for o in outs)})"
 
 
@@ -27,8 +34,8 @@ def impl_sequence(reqs):
     import ford.sourceform as sf
 
     class Stub(sf.FortranBase):
-        def __init__(self, name, d):
-            self.name, self._d = name, d
+        def __init__(self, name, d, obj):
+            self.name, self._d, self.obj = name, d, obj
 
         def get_dir(self):
             return None if self._d == "None" else self._d
@@ -38,7 +45,7 @@ def impl_sequence(reqs):
     outs = []
     for i, d, n in reqs:
         if i not in objs:
-            objs[i] = Stub(n, d)
+            objs[i] = Stub(n, d, obj_of(i, d))
         try:
             outs.append(sel.get_name(objs[i]))
         except Exception as e:  # noqa
@@ -121,9 +128,10 @@ def end_to_end(chk, rng, nproj):
             # (1) the registration trace of the real run, replayed through the Coq model
             ids = {}
             reqs = [(ids.setdefault(i, len(ids) + 1), d, n) for i, d, n, _ in log]
+            kinds = {ids[i]: (o or "") for i, _, _, _, o in log5}
             outs = [r for *_, r in log]
             if all(core.is_ascii(n) for _, _, n in reqs):
-                res = chk.coq_judge(IMPORTS, "list req * list str", "judge", [case_term(reqs, outs)])
+                res = chk.coq_judge(IMPORTS, "list (req * str) * list str", "judge", [case_term(reqs, outs, kinds)])
                 chk.traces += 1
                 if res is None:
                     continue
@@ -184,7 +192,7 @@ def run(chk):
         cases.append((reqs, outs))
         chk.count(("seq", tuple(reqs)), nontrivial=len({i for i, _, _ in reqs}) > 1,
                   sample={"requests": reqs, "impl": outs})
-    res = chk.coq_judge(IMPORTS, "list req * list str", "judge", [case_term(r, o) for r, o in cases])
+    res = chk.coq_judge(IMPORTS, "list (req * str) * list str", "judge", [case_term(r, o) for r, o in cases])
     if res is not None:
         chk.traces += len(cases)
         for idx, code in sorted(res.items())[:3]:
@@ -207,7 +215,7 @@ def replay(chk, rep):
         outs = impl_sequence(reqs)
         print("impl:", outs)
         chk.build(["theories/Corr/C10.vo"])
-        res = chk.coq_judge(IMPORTS, "list req * list str", "judge", [case_term(reqs, outs)])
+        res = chk.coq_judge(IMPORTS, "list (req * str) * list str", "judge", [case_term(reqs, outs)])
         print("judge code:", res)
         return 1 if res else 0
     print("replay files:", list(rep.get("files", {})))
